@@ -27,6 +27,8 @@ type Unit struct {
 	EffectsOn  bool
 	Alias      map[string]aliasSpec
 	MapKeys    map[string]string // rendered map expression ranged over -> oracle parameter holding its keys
+	JoinIfs    bool              // translate jump-free `if`s as joins instead of duplicating the continuation
+	StoreOn    bool              // the unit threads an explicit store value (Tables/GoStore.lean)
 	TypeNames  map[string]LT     // per-unit Go type -> Lean type (for map literals), overriding goTypeNames
 	failed     string            // set when the unit turned out not to be translatable
 }
@@ -39,6 +41,9 @@ type callSpec struct {
 	Value  V
 	Effect string
 	Args   []int
+	Walk   string // `coll.Walk(ctx, nil, closure)`: Lean term (over %s = the store) for the list of records visited
+	Store  string // store-threaded units: Lean term over `st__` and the arguments (%1 …)
+	Kind   string // "r" read, "w" write (new store), "rw" read-and-write ((value, store'))
 }
 
 const (
@@ -382,5 +387,47 @@ func init() {
 			Params: []gparam{{Go: "gs", T: "GenesisG"}}, Ret: []LT{"Err"},
 			Calls:     map[string]callSpec{"UnpackAuction": {Value: V{"(%1, false)", "(Auction × Err)"}}},
 			TypeNames: map[string]LT{"string": "Key", "struct{}": "Unit"}},
+	)
+}
+
+const moduleP = "github.com/tendermint/fundraising/x/fundraising/module"
+
+func init() {
+	units = append(units,
+		// ---- module/genesis.go: InitGenesis, store-threaded (it reads back what it has written)
+		Unit{Group: "Import", Name: "InitGenesis", Pkg: moduleP, Func: "InitGenesis", StoreOn: true, JoinIfs: true,
+			Params: []gparam{{Go: "ctx"}, {Go: "k", T: "Keeper"}, {Go: "genState", T: "GenesisG"}}, Ret: []LT{"Err"},
+			Calls: map[string]callSpec{
+				"k.AuctionSeq.Next":        {Store: "(GStore.seqNext st__)", Kind: "rw", Value: V{T: "(Int × Err)"}},
+				"k.Auction.Set":            {Store: "(GStore.auctionSet st__ %1 %2)", Kind: "w", Args: []int{1, 2}},
+				"k.Auction.Get":            {Store: "(GStore.auctionGet st__ %1)", Kind: "r", Args: []int{1}, Value: V{T: "(Auction × Err)"}},
+				"k.AllowedBidder.Set":      {Store: "(GStore.allowedSet st__ %1 %2 %3)", Kind: "w", Args: []int{1, 2}},
+				"k.SetMatchedBidsLen":      {Store: "(GStore.matchedLenSet st__ %1 %2)", Kind: "w", Args: []int{1, 2}},
+				"k.GetNextBidIdWithUpdate": {Store: "(GStore.nextBidId st__ %1)", Kind: "rw", Args: []int{1}, Value: V{T: "(Int × Err)"}},
+				"k.Bid.Set":                {Store: "(GStore.bidSet st__ %1 %2 %3)", Kind: "w", Args: []int{1, 2}},
+				"k.VestingQueue.Set":       {Store: "(GStore.vqSet st__ %1 %2 %3)", Kind: "w", Args: []int{1, 2}},
+				"k.Params.Set":             {Store: "(GStore.paramsSet st__ %1)", Kind: "w", Args: []int{1}},
+				"types.UnpackAuction":      {Value: V{"(%1, false)", "(Auction × Err)"}},
+				"errors.Is":                {Value: V{"%1", "Bool"}},
+			},
+			TypeNames: map[string]LT{"int64": "Int"}},
+	)
+}
+
+func init() {
+	units = append(units,
+		// ---- module/genesis.go: ExportGenesis (every collection walked in key order)
+		Unit{Group: "Export", Name: "ExportGenesis", Pkg: moduleP, Func: "ExportGenesis", StoreOn: true, JoinIfs: true,
+			Params: []gparam{{Go: "ctx"}, {Go: "k", T: "Keeper"}}, Ret: []LT{"GenesisG", "Err"},
+			Calls: map[string]callSpec{
+				"k.Params.Get":         {Store: "(GStore.paramsGet st__)", Kind: "r", Value: V{T: "(Params × Err)"}},
+				"k.AllowedBidder.Walk": {Walk: "(GStore.allAllowed %s)", Value: V{T: "List AllowedArg"}},
+				"k.VestingQueue.Walk":  {Walk: "(GStore.allVqs %s)", Value: V{T: "List VQ"}},
+				"k.Bid.Walk":           {Walk: "(GStore.allBids %s)", Value: V{T: "List Bid"}},
+				"k.Auction.Walk":       {Walk: "(GStore.allAuctions %s)", Value: V{T: "List Auction"}},
+				"types.PackAuction":    {Value: V{"(%1, false)", "(Auction × Err)"}},
+				"types.DefaultGenesis": {Value: V{"Go.defaultGenesis", "GenesisG"}},
+			},
+			TypeNames: map[string]LT{"*codectypes.Any": "Auction"}},
 	)
 }
